@@ -16,7 +16,8 @@ from harness import core
 from harness.core import coqZ, coq_list, coq_string
 
 THEOREMS = ['C20_band_mass', 'C20_bands_nested', 'C20_polygon', 'C20_one_trace_per_individual', 'C20_trace_exact',
-            'C20_dose_trace_exact']
+            'C20_dose_trace_exact', 'C20_polygon_values', 'C20_times_exact', 'C20_samples_exact',
+            'C20_limits_order_free', 'C20_band_row_order_free']
 HEADER = '''From Coq Require Import ZArith List Bool String.
 From Chi Require Import Model.Plots Tie.C20Tie.
 Import ListNotations.
